@@ -616,7 +616,17 @@ def monitor_c15(ctx):
         if i % 10 == 0:
             p['poison'] = [None, r.choice(['f(1', '[1, 2', '{1: 2', 'g(1 +', ['f(a, (b, c), d)', 1], ['f(a, [b, {c: d', 3], ['x = (a $ b', 9], ['a\nb\n(c\nd', 3],
                                              ['[a, b', 9]])]
+        if i % 7 == 3:
+            p['neighbours'] = True
         pays.append(p)
+    # layouts of programs whose string literals / %names% hold runs of blanks and tabs
+    for plain, decos in [('pad("id", "|   |")', ['pad("id",\t"|   |")', 'pad("id",  ("|   |"))', 'pad("id",  "|   |",)', 'pad("id",  "|   |");',
+                                                   'pad("id",  "|   |") # 3 wide', 'pad(\n"id",  "|   |"\n)', '"id" | pad("|   |")']),
+                         ('%first  name% + "!"', ['(%first  name%) + "!"', '%first  name%\t+ "!"', '%first  name% + "!";']),
+                         ('x = "a \t b"; [x, "a  b"]', ['x = "a \t b" ;  [x,  "a  b"]', 'x = ("a \t b")\n[x, "a  b",]']),
+                         ('{"k  1": 1, "k 1": 2}', ['{"k  1": 1,   "k 1": 2,}', '{\n"k  1": 1,\n"k 1": 2\n}'])]:
+        for d in decos:
+            pays.append({'plain': plain, 'decorated': d, 'neighbours': True})
     a = _run('c15', 'c15', pays, 'metamorphic: parse(plain) == parse(decorated) for random programs and random combinations of the rewrites at '
                 'every applicable position; every 10th pair also after an earlier rejected unbalanced text on the same parser')
     recv = ['hs', 'hl', 'hd', 'hn', 'hb', 'hi', '"s t"', '5', '[2, 1]', 'None', '{"a": 1}', 'True', '1.5', '[]', '""']
@@ -692,6 +702,12 @@ def monitor_c16(ctx):
     for seq in [['zz9 = 5', 'zz9'], ['zz9 = 5', 'zz9 + 1'], ['fz = v => v', 'fz(1)'], ['zz9 = [1]', 'zz9 += [2]'], ['zz9 = 1; zz8 = 2', '[zz8]'],
                 ['q1 = 1', 'q2 = 2', 'q1 + q2'], ['zz9 = 5', 'zz9 += 1'], ['zz9 = 5', 'x = zz9']]:
         pays.append({'seq': seq})
+    OPENERS = ['[1, 2 3]', 'f(1, $)', '{"a": (1 2)}', 'x = )', '(((', '[1, (2, {3: ', 'f(1,\n2 3)', '"abc', '[1, "x]', ['foo(bar, [baz, qux])', 3], ['f(a, (b, c), d)', 1],
+               ['{a: [b, (c', 3], '1 +', 'x = [1, 2', '%a b', 'for', ')', ']', '}', 'f(1))', '[1]]', '1 2']
+    BROKEN = ['1 +\n2', 'x = 10 *\n3\nx', 'a = 1\nb = a -\na', 'len(\n[1, 2]) +\n1', '1 +;2', 'x = \n1', '[1, 2]\n]', 'f(\n1\n))', '1\n)', 'a = (1\n',
+              'not\n1', '1 if 2 else\n3', '1 +\r\n2', 'x.\nf()', '1 |\nlen']
+    for i in range(0, len(OPENERS), 4):
+        pays.append({'after_failed': [OPENERS[i:i + 4], BROKEN]})
     a = _run('c16', 'c16', pays, 'arbitrary Unicode strings (control characters, unnamed / private-use / surrogate code points), truncations at every '
                 'character, deep nesting, erroneous programs through parse / list_names / eval: only ParserError for parse and list_names, only '
                 'Exceptions for eval, a dead worker is a crash; each listed failure planted at 20 syntactic positions must be a ParserError')
